@@ -36,7 +36,7 @@ package edge
 //@ func NewBatchPointMessage
 //@   trusted
 //@   modifies nothing
-//@   ensures result != nil
+//@   ensures result != nil && result.Fields() == fields && result.Tags() == tags && result.Time() == time
 //@ func NewPointMessage
 //@   trusted
 //@   modifies nothing
@@ -164,3 +164,32 @@ package edge
 //@   requires r != nil && r.begin != nil
 //@   ensures called(NewBufferedBatchMessage) && callarg(NewBufferedBatchMessage, 1) == r.points && callarg(NewBufferedBatchMessage, 2) == end
 //@   ensures r.points == old(r.points) && forall k int :: 0 <= k && k < len(r.points) ==> r.points[k] == old(r.points[k])
+
+// ---------------------------------------------------------------- messages.go: reading a recorded batch back (C18)
+// "replay reproduces the recording": every recorded point comes back with its own fields and time,
+// and with its own tags -- or, when none were recorded for the point, the batch's tags; never the
+// tags of another point. Assumed (trusted): encoding/json fills the local decoding struct and
+// touches nothing else; the setters of the begin message touch only that message.
+//@ func =encoding/json.Unmarshal@**github.com/influxdata/kapacitor/edge.bufferedBatchMessageJSON
+//@   trusted
+//@   modifies object(*as(v, **bufferedBatchMessageJSON))
+//@   ensures *as(v, **bufferedBatchMessageJSON) == old(*as(v, **bufferedBatchMessageJSON))
+//@ func (NameSetter).SetName
+//@   trusted
+//@   modifies gfi(recv, mutated, bool)
+//@ func (DimensionSetter).SetDimensions
+//@   trusted
+//@   modifies gfi(recv, mutated, bool)
+//@ func (*bufferedBatchMessage).UnmarshalJSON
+//@   props C18
+//@   requires bb != nil && bb.begin != nil
+//@   ensures result == nil && len(bb.points) == len(b.Points)
+//@   ensures [own-fields-time-tags] forall i int :: 0 <= i && i < len(bb.points) ==> bb.points[i] != nil
+//@       && bb.points[i].Fields() == b.Points[i].Fields && bb.points[i].Time() == b.Points[i].Time.UTC()
+//@       && bb.points[i].Tags() == ite(len(b.Points[i].Tags) == 0, b.Tags, b.Points[i].Tags)
+//@   loop 1
+//@     modifies elems(bb.points)
+//@     invariant 0 <= _i && _i <= len(bb.points) && len(bb.points) == len(b.Points) && b != nil
+//@     invariant forall i int :: 0 <= i && i < _i ==> bb.points[i] != nil
+//@       && bb.points[i].Fields() == b.Points[i].Fields && bb.points[i].Time() == b.Points[i].Time.UTC()
+//@       && bb.points[i].Tags() == ite(len(b.Points[i].Tags) == 0, b.Tags, b.Points[i].Tags)
